@@ -36,6 +36,31 @@ def gen_docs(lo: int, hi: int, with_props: bool, rep: core.Report, module: str =
     return docs
 
 
+FAULT_CFG = '''CONSTANTS
+  SeedLo = %d
+  SeedHi = %d
+  WithProps = %s
+INIT FInit
+NEXT FNext
+INVARIANT Ruled
+INVARIANT EmitFault
+CHECK_DEADLOCK FALSE
+'''
+
+
+def gen_faults(lo: int, hi: int, rep: core.Report):
+    """single-fault documents (GenFault.tla); TLC checks Ruled on each. -> [(id, {'doc':..., 'kind':...})]"""
+    res = tlc.require_ok(tlc.run('MC_GenFault', cfg_text=FAULT_CFG % (lo, hi, 'FALSE'), workers=core.NCPU, timeout=3000), 'MC_GenFault')
+    if res.violated:
+        raise core.Machinery('design-level property %s violated in MC_GenFault\n%s' % (res.violated, res.out[-3000:]))
+    rep.add_tlc('MC_GenFault seeds %d..%d' % (lo, hi), res)
+    out = [(p[1], json.loads(p[2])) for p in res.prints if p and p[0] == 'DOC']
+    if not out:
+        raise core.Machinery('generator MC_GenFault produced no documents')
+    out.sort(key=lambda x: x[0])
+    return out
+
+
 def form_plan(nrandom: int, sweep: bool, base_seed: int) -> List[Tuple[Optional[int], Dict[str, Any]]]:
     """the forms each document is printed in: canonical, every single dimension pinned to every
     non-default value (sweep), and seeded random combinations of all dimensions"""
